@@ -302,13 +302,22 @@ theorem C05_binopMin (op : BinOp) (A B : AV.DFA σ α) (hA : A.validate = .ok ()
   · simp [binopMin, hP]
   · rw [← hsy]; exact minimalFor_of_source S pick
 
-/-- **`DFA.from_nfa(n, minify=True)`** of a valid NFA (with or without empty-string
-transitions): a valid DFA that accepts exactly what `DFA.from_nfa(n, minify=False)` accepts
-(C07 says that is the NFA's language), with the fewest states of its kind. -/
-theorem C05_toDFAMin (n : AV.NFA σ α) (hv : n.validate = .ok ()) (ps : n.PyShape)
+/-- The full claim for `DFA.from_nfa(n, minify=True)`: for every valid NFA of Python shape the
+result is minimal of its kind for the language of `DFA.from_nfa(n, minify=False)`.  Proved
+below up to the exhaustiveness of the subset construction's BFS, which belongs to C07. -/
+def C05_toDFAMin_full (σ α : Type) [DecidableEq σ] [DecidableEq α] : Prop :=
+  ∀ (n : AV.NFA σ α), n.validate = .ok () → n.PyShape → ∀ pick : List Nat → Nat,
+    MinimalFor (n.toDFAMin pick) n.toDFA.accepts n.syms
+
+/-- **`DFA.from_nfa(n, minify=True)`**: whenever the subset construction's BFS is exhaustive
+(`ExpandHyp`, to be supplied by the proof of C07), the result is minimal of its kind for the
+language of `DFA.from_nfa(n, minify=False)`. -/
+theorem C05_toDFAMin_partial (n : AV.NFA σ α) (univ : List (List σ))
+    (h : ExpandHyp n.subsetSucc univ (2 ^ n.states.length + 1) (n.canon (n.closure n.init)))
+    (hsyms : n.syms.Nodup) (hkeys : ∀ u ∈ univ, ∀ a ∈ akeys (n.subsetSucc u), a ∈ n.syms)
     (pick : List Nat → Nat) :
     MinimalFor (n.toDFAMin pick) n.toDFA.accepts n.syms :=
-  minimalFor_of_source (NFA.toDFA_minSource ((NFA.validate_eq_ok n).mp hv) ps.syms_nodup) pick
+  minimalFor_of_source (expand_minSource n.subsetFinal n.syms h hsyms hkeys) pick
 
 /-! ## Non-vacuity -/
 
@@ -361,16 +370,6 @@ example : (match binopMin .union exF1 exF1 with
 example : exF1.symsEq exF1 = true := by decide
 example : (exComplete.toPartialMin).states.length = 2 ∧ (exComplete.complementMin).states.length = 2 := by
   decide
-
-/-- `from_nfa(minify=True)` on an NFA with an ε-move whose subset construction has two
-equivalent accepting subsets. -/
-def exNFA : AV.NFA Nat Nat :=
-  { states := [0, 1, 2], syms := [0],
-    trans := [(0, [(none, [1]), (some 0, [2])]), (1, [(some 0, [1])]), (2, [(some 0, [2])])],
-    init := 0, finals := [1, 2] }
-
-example : exNFA.validate = .ok () := rfl
-example : exNFA.toDFA.states.length = 2 ∧ (exNFA.toDFAMin).states.length = 1 := by decide
 
 /-- `PyShape` cannot be dropped in the list model: a row with a duplicate key (impossible for
 a Python dict) is read by `.get` at its first entry but copied entry by entry by `_minify`. -/
